@@ -392,8 +392,12 @@ def hd1(ctx, R):
             continue
         objs = [p_ for p_ in params if p_ != hdr and any(isinstance(n, ast.Attribute) and isinstance(n.ctx, ast.Load) and isinstance(n.value, ast.Name) and n.value.id == p_
                                                       and n.attr not in ("read", "seek", "tell") for n in ast.walk(fi.node))]
-        if len(objs) == 1:
-            restaters.append((fi, params, hdr, objs[0]))
+        # the object whose index is restated is the one whose has_data flag is consulted or that is copied
+        flagged = [p_ for p_ in objs if any((isinstance(n, ast.Attribute) and n.attr == "has_data" and isinstance(n.value, ast.Name) and n.value.id == p_) or
+                                            (isinstance(n, ast.Call) and call_name(n) in ("copy", "copy.copy") and n.args and isinstance(n.args[0], ast.Name)
+                                             and n.args[0].id == p_) for n in ast.walk(fi.node))]
+        if len(flagged) == 1:
+            restaters.append((fi, params, hdr, flagged[0]))
     if not restaters:
         R.unrecognised("tdms_segment::restating an object's index", mod.relpath, "no function with a header parameter compared with RAW_DATA_INDEX_* and one "
                     "object parameter: how the index of an object seen before is restated was not recognised")
